@@ -73,7 +73,7 @@ def gen_link(rng, blocks):
     resnames = rng.sample([b['name'] for b in blocks], rng.randint(1, min(2, len(blocks))))
     # choose atom names that exist in at least one of the resnames
     pool = sorted({a['name'] for b in blocks if b['name'] in resnames for a in b['atoms']})
-    link = {'resnames': resnames, 'inters': {}, 'edges': [], 'atoms_attr': {}, 'meta': {}}
+    link = {'resnames': resnames, 'inters': {}, 'edges': [], 'atoms_attr': [], 'meta': {}}
     nint = rng.randint(1, 3)
     for _ in range(nint):
         sec = rng.choice(['bonds', 'bonds', 'angles', 'dihedrals', 'constraints', 'exclusions'])
@@ -101,7 +101,7 @@ def gen_link(rng, blocks):
     if rng.random() < 0.25 and link['inters']:
         # replace an attribute of one link atom
         some = rng.choice([a for rows in link['inters'].values() for r in rows for a in r['atoms']])
-        link['atoms_attr'][some] = {'replace': {'atype': rng.choice(ATYPES), 'mass': '14.027'}}
+        link['atoms_attr'].append([list(some), {'replace': {'atype': rng.choice(ATYPES), 'mass': '14.027'}}])
     used = sorted({a for rows in link['inters'].values() for r in rows for a in r['atoms']})
     if rng.random() < 0.2 and len(used) >= 2:
         a, b = rng.sample(used, 2)
@@ -140,7 +140,7 @@ def render_ff(ff):
         out += ['[ link ]', 'resname "' + '|'.join(l['resnames']) + '"']
         if l['atoms_attr']:
             out.append('[ atoms ]')
-            for (p, n), attr in l['atoms_attr'].items():
+            for (p, n), attr in l['atoms_attr']:
                 out.append(f'{p}{n} {json.dumps(dict(attr, order=0) if p == "" else attr)}')
         for sec, rows in l['inters'].items():
             out.append(f'[ {sec} ]')
